@@ -157,6 +157,21 @@ def no_silent_input(ctx, r: Rust, arms):
     guarded = all(any(g.kind == 'guard' and g.args[0][1] == e.result and g.args[1] == 'Some' for g in p.events)
                   or p.end == 'diverge' for e, p in reads)
     rng = [M._range_of(e) for p in ps for e in p.events if M._range_of(e) is not None]
+    # the iterator spelling: (0..len).map(|_| *iterator.next().expect(..)).collect() - the element reads are in the closure
+    for p in ps:
+        for e in p.events:
+            if e.kind == 'call' and e.name == 'Iterator::map' and len(e.args) == 2 and e.args[1][0] == 'closure' \
+                    and e.args[0][0] == 'agg' and 'Range' in e.args[0][1]:
+                d_ = dict(e.args[0][2])
+                collected = any(x.kind == 'call' and x.name == 'Iterator::collect' and x.args and x.args[0] == e.result for x in p.events)
+                if collected:
+                    rng.append((d_.get('start'), d_.get('end')))
+                    for cp in r.ev.closure_paths(e.args[1]):
+                        for x in cp.events:
+                            if x.kind == 'call' and x.name == 'Iterator::next' and x.args and x.args[0] == ('param', 'iterator'):
+                                reads.append((x, cp))
+    guarded = all(any(g.kind == 'guard' and g.args[0][1] == e.result and g.args[1] == 'Some' for g in p.events)
+                  or p.end == 'diverge' for e, p in reads)
     ok_rng = bool(rng) and all(x[0] == ('int', 0) and x[1][0] == 'field' and x[1][2] == 'Some' for x in rng)
     ctx.ob('checked-read', 'read_u8_vec', guarded and ok_rng and len(reads) >= 2,
            'read_u8_vec does not check its length byte or its elements, or does not read exactly `len` elements',
